@@ -147,6 +147,45 @@ CLAIMS = {
    note=NOTE + "C20: leggauss data enter as parameters (Σw = 1 checked on the real data); direct amplitudes compared in float64 only.",
    technique="Lean 4 theorems (box membership by omega, class of each pixel, list partition of the hybrid split, hybrid(0)=Fourier, σ-grid end points) + option-space render correspondence + numerical oracle with the property's tolerances",
    design="7/C20"),
+ "C16": dict(
+   text=("Proof, full over ℝ for every image size and every sky value: 'none' adds nothing, 'flat' adds the constant to every pixel, 'tilted-plane' adds "
+         "back + (x − N/2)·x_sl + (y − N/2)·y_sl with x the column and y the row (first index of the image = row); the plane with zero slopes is the flat "
+         "sky; the stand-alone render_tilted_plane_sky is the same function; in the fitter's model image (single and multi) the sky is added to the "
+         "PSF-convolved scene — pixel by pixel model − scene = sky, and a flat sky raises the image total by exactly N²·back whatever ΣPSF is (DC theorem) — "
+         "and is independent of the source parameters; the installed priors are Normal(guess, err) for the level and Normal(0, k·err) for both slopes with "
+         "k regenerated from the source (obligation k = 0.1); the sky parameter names per type agree with the regenerated table. Tie: the deterministic "
+         "'model' site of the real build_model() (single/multi, suffixes, un-normalised PSFs, values forced through the unit-scale base latents) minus the "
+         "real render of the same parameters vs the Lean sky image (float64 1e-9, float32 2e-5 of the image scale); installed hyper-parameters vs the model."),
+   note=NOTE + "C16: square images only (both pivots are X.shape[0]/2); observation: PySersicMultiPrior builds its sky prior without the suffix (mirrored by the model).",
+   technique="Lean 4 theorems (closed forms, sky outside the convolution via the DC theorem, prior entries) + model-site correspondence on real fitters",
+   design="7/C16"),
+ "C11": dict(
+   text=("Proof over ℝ for every loc, every scale > 0 and every bound: the object the Gaussian helper installs has the textbook normal log-density in the "
+         "parameter's own units; the uniform helper −log(high−low); the truncated helper the normal density renormalised by Φ((high−loc)/scale) − "
+         "Φ((low−loc)/scale) (Φ abstract; one-sided cases included); the supports in the parameter's units are exactly [low, high], (low, ∞), (−∞, high); "
+         "outside them the log-density is −∞ — under the obligation, regenerated from the source, that the bounded helpers hand the base support to the "
+         "affine transform and validate arguments (false on the original tree: genuine defect, fixed); the exposed value is loc + scale·base and the plain "
+         "log-density at it equals the base log-density minus log scale, so a whole reparameterised prior differs from the plain one by the constant Σ log "
+         "scale_i. Tie: the real helpers' installed objects (family, loc, scale, rescaled bounds, reparam entry, keys) and log_prob inside and outside the "
+         "support vs the Lean model (float64 1e-9). Oracle: scipy norm/uniform/truncnorm at the float32-rounded point (1e-2), 10⁴ samples inside the bounds, "
+         "exposed value and constant Jacobian through real reparameterised traces."),
+   note=NOTE + "C11: known finding recorded (numpyro's float32 TruncatedNormal normaliser cancels for two-sided windows more than 4.5σ above loc).",
+   technique="Lean 4 real-analysis theorems (affine change of variables, supports, constant Jacobian) + regenerated structural fact as obligation + installed-object correspondence + scipy oracle",
+   design="7/C11"),
+ "C12": dict(
+   text=("Proof, partial. Proved on the model of generate_prior / PySersicMultiPrior with all constants regenerated from the source: the parameter tables of "
+         "rendering.py and priors.py list the same types and, per type, the same parameters; for each of the 7 × 3 types, any suffix and any guesses the "
+         "prior defines exactly the table's parameters (+suffix) followed by the sky parameters, without duplicates (so check_vars holds); every r_eff "
+         "prior is a normal truncated below at the regenerated bound with support (0.5, ∞) for every positive scale; the regenerated bounds are the "
+         "physical ones (ellip [0,0.9], n [0.65,8], θ [0,2π], fractions [0,1], position σ = 1) and uniform priors expose values inside their bounds; the "
+         "position prior is Normal(xc_guess,1)/Normal(yc_guess,1), x first; scales are positive given r_eff_guess > 0 and flux > 0 (and degenerate "
+         "otherwise — hypothesis shown necessary); multi-source priors name source i's parameters p_i+suffix for its own catalogue type, in order, sky "
+         "last without suffix. Not proved (external library): everything photutils measures — observed by the oracle (centre within 0.25 px at S/N ≥ 100, "
+         "finite hyper-parameters on noisy / negative / pure-noise images, prior draws in range rendering to finite images). Tie: real setters + "
+         "generate_prior and PySersicMultiPrior (dict / DataFrame / recarray, with and without theta) vs the model entries."),
+   note=NOTE + "C12: genuine defect found and fixed (record-array catalogues without theta column raised ValueError).",
+   technique="Lean 4 theorems (decidable table facts, completeness by cases over the 7 types, support lemmas) on regenerated constants + entry-wise prior correspondence + photutils oracle",
+   design="7/C12"),
 }
 
 checks, na = [], []
